@@ -214,24 +214,26 @@ def result_arrays(D, out):
     return D.result_arrays(out)
 
 
-def agree(D, ts, method, kw, grid, c):
+def rel_diff(D, ts, method, kw, grid, c):
     base = run_dating(D, ts, method, kw, grid, 1.0)
     r = run_dating(D, ts, method, kw, grid, c)
     if base[0] != "ok" or r[0] != "ok":
-        return False
+        return float("inf")
     scale = {"node_time": c, "mut_time": c, "node_mn": c, "mut_mn": c, "node_vr": c * c, "mut_vr": c * c}
-    d, _ = D.max_rel_diff(result_arrays(D, base[1]), result_arrays(D, r[1]), scale)
-    return d <= TOL[method]
+    return D.max_rel_diff(result_arrays(D, base[1]), result_arrays(D, r[1]), scale)[0]
 
 
-def rounding_sensitive_rescaling(D, ts, method, kw, grid, c):
-    """characterises known finding K10: the SAME input is equivariant for this c with the rescaling step
-    switched off, and equivariant with rescaling on for powers of two (which commute with rounding).  A
-    dimensional error or an absolute constant anywhere fails at least one of the two."""
+def rescaling_changepoint_tie(D, ts, method, kw, grid, c):
+    """diagnoses known finding K11 (same mechanism as K11 of C07): the changepoints of the rescaling step are
+    picked by comparing cumulative mass fractions with k/epochs (searchsorted in _fixed_changepoints); the
+    last-bit rounding of an inexact factor moves a boundary by one epoch.  Criterion: the SAME input is within
+    tolerance under the nearest power-of-two factor (bit-identical with the compiled kernels; the pure-Python
+    kernels evaluate x**2 with libm pow, measured 3e-11), and within tolerance for this c with the rescaling
+    step switched off.  A dimensional error or an absolute constant fails at least one of the two."""
+    c2 = 2.0 ** round(math.log2(c))
     off = dict(kw)
     off["rescaling_intervals"] = 0
-    return agree(D, ts, method, off, grid, c) and agree(D, ts, method, kw, grid, 2.0) and \
-        agree(D, ts, method, kw, grid, 2.0 ** -13)
+    return rel_diff(D, ts, method, kw, grid, c2) <= TOL[method] and rel_diff(D, ts, method, off, grid, c) <= TOL[method]
 
 
 def pipeline(ctx, n):
@@ -269,8 +271,8 @@ def pipeline(ctx, n):
             if not d <= TOL[method]:
                 sig = "pipeline:%s" % method
                 if method == "variational_gamma" and kw.get("rescaling_intervals", 1000) != 0 and \
-                        rounding_sensitive_rescaling(D, ts, method, kw, grid, c):
-                    sig += ":rounding-sensitive-rescaling-step"
+                        rescaling_changepoint_tie(D, ts, method, kw, grid, c):
+                    sig = "rescaling-changepoint-tie"
                 ctx.oracle_fail(sig, "time unit x %r: %s differs by %.3g relative (tolerance %g)" % (
                     c, where, d, TOL[method]), replay)
 
